@@ -18,6 +18,9 @@ def eval_call(E, node, st):
     if isinstance(f, ast.Name):
         if f.id == "old" and E.spec_mode:
             return _old(E, node, st)
+        if f.id == "fresh" and E.spec_mode:
+            # fresh(x): x was allocated after the entry state (of the call / of the function)
+            return E.bind(E.eval(node.args[0], st), lambda s, v: [Out("ok", s, vbool(v.t > E.frame.old.alloc))])
         if f.id in ("all", "any") and len(node.args) == 1 and isinstance(node.args[0], ast.GeneratorExp):
             return _quant(E, node, st)
         if f.id == "implies" and E.spec_mode:
@@ -427,8 +430,7 @@ def construct(E, st, cname, args, kwargs, node=None):
     c = E.R.method_contract(cname, "__init__", E.P)
     sh = E.R.shapes.get(cname)
     if c is not None and (c.clsname == cname or True):
-        s2, r = E.new_ref(st)
-        obj = V(Kind("ref", cname), r)
+        s2, obj = E.new_object(st, cname)
         outs = apply_contract(E, s2, c, obj, args, kwargs)
         return [Out("ok", o.st, obj) if o.tag == "ok" else o for o in outs]
     if sh is not None and sh.external:
@@ -437,8 +439,7 @@ def construct(E, st, cname, args, kwargs, node=None):
         ci, fn = E.P.find_method(cname, "__init__")
     except frontend.MissingTarget:
         raise Unsupported("unknown class %s" % cname)
-    s2, r = E.new_ref(st)
-    obj = V(Kind("ref", cname), r)
+    s2, obj = E.new_object(st, cname)
     if fn is None:
         return [Out("ok", s2, obj)]
     mi = E.P.module(ci.module)
@@ -552,8 +553,17 @@ def _lit(x):
     raise SpecError("default literal %r" % (x,))
 
 
+def clause_props(src):
+    """'[C11,C15] expr' -> ({'C11','C15'}, 'expr');  untagged -> (None, expr)"""
+    src = src.strip()
+    if src.startswith("["):
+        j = src.index("]")
+        return set(x.strip() for x in src[1:j].split(",")), src[j + 1:].strip()
+    return None, src
+
+
 def parse_clause(src):
-    return ast.parse(src.strip(), mode="eval").body
+    return ast.parse(clause_props(src)[1], mode="eval").body
 
 
 def spec_bool(E, src, st, env, old_st, contract_frame=None):
@@ -712,6 +722,9 @@ def apply_contract(E, st, c, selfv, args, kwargs):
             if c.fresh_result and is_refkind(rk):
                 s2, r = E.new_ref(s2)
                 rv = V(rk, r)
+                tc = E.type_constraint(rv)
+                if tc is not None:
+                    s2 = s2.assume(tc)
             else:
                 rv = E.fresh(rk, "res_" + c.funcname)
                 s2 = E.assume_valid_ref(s2, rv) if rk.tag != "tuple" else s2
@@ -719,6 +732,9 @@ def apply_contract(E, st, c, selfv, args, kwargs):
             env2["result"] = rv
             ok = True
             for e in c.ensures:
+                props, _txt = clause_props(e)
+                if props is not None and E.prop not in props and not c.assumed:
+                    E.trusted.add("clause of %s decided under %s and assumed here: %s" % (c.name, "/".join(sorted(props)), _txt[:80]))
                 s2 = s2.assume(E.spec_bool(e, s2, env2, st))
             if len(alts(c.returns)) > 1 and not E.feasible(s2):
                 continue
